@@ -4,13 +4,14 @@ PROPERTY = dict(
     level_text='Reduced scope, bounded: the cycle finder of the real engine (BuildEngineImpl::findCycle, and resolveCycle / breakCycle around it) is decided by CBMC for every wait-for graph over 2 and 3 rules, '
                'one query per graph shape, with the rule keys - which fix the order in which predecessors are explored, hence WHICH cycle is reported - symbolic. '
                '(Y1) if a cycle is reachable from the requested key the reported list starts at the requested key, every consecutive pair is a real wait-for edge, the last key repeats an earlier one and no key is listed twice before it; if none is reachable the list is empty (no false report). '
+               '(Y3) the same with some rules still being SCANNED instead of running (cycles through dependencies recorded by earlier builds): a task waiting for a scanning rule is a paused input request in that rule\'s scan record, a scanning rule waiting for another rule is a deferred scan request in the other\'s record or task. '
                '(Y2) when the engine is stuck and the cycle cannot be broken, the client is told exactly once, with that list, the build does not go on, and no task is changed.',
     level_note='Trusted: clang-14 -O1 IR of BuildEngine.cpp, ir2c (validated per query), CBMC 6.11 + MiniSat/CaDiCaL; the real libstdc++ hash containers run unmodified, only std::hash of a pointer is replaced by an injective small number (any function of the pointer is a valid hash). '
-               'NOT decided: that the engine enters resolveCycle exactly when it is stuck (C05/C06 drive executeTasks with resolveCycle stubbed), cycles that run through rules still being SCANNED (paused input requests and deferred scan requests of RuleScanRecords are not constructed: all rules of a query have tasks), '
+               'NOT decided: that the engine enters resolveCycle exactly when it is stuck (C05/C06 drive executeTasks with resolveCycle stubbed), '
                'cycle breaking by forcing a build or supplying a prior value, graphs over more than 3 rules.',
-    bounds='2 and 3 rules, every edge set including self-edges (16 + 512 shapes thorough; 16 + 17 quick, among them the diamonds that separate visited-set bugs); 1-byte keys, pairwise distinct, symbolic',
-    outside='scan-record edges; > 3 rules; delegate-driven cycle breaking; the executeTasks loop around resolveCycle',
-    stubs='getRuleInfoForKey(requested key) -> rule 0; std::hash<Task*>, std::hash<Rule*> -> index of the object; tracing off',
+    bounds='2 and 3 rules, every edge set including self-edges (16 + 512 shapes thorough; 16 + 17 quick, among them the diamonds that separate visited-set bugs); with scanning rules every subset of rules scanning and every edge set in which a scanning rule is parked on at most one input (1249 shapes thorough, 19 quick); 1-byte keys, pairwise distinct, symbolic',
+    outside='> 3 rules; delegate-driven cycle breaking; the executeTasks loop around resolveCycle',
+    stubs='getRuleInfoForKey(requested key) -> rule 0; std::hash<Task*>, std::hash<Rule*>, std::hash<const RuleScanRecord*> -> index of the object; tracing off',
     assumptions=['the requested key is rule 0 (any other choice is a relabelling of another shape)'],
     explanation='For each shape the solver decides, over all key orders, that what findCycle returns (and what the client is shown) is a genuine cycle reachable from the requested key, or nothing when there is none.',
 )
@@ -19,8 +20,9 @@ def shapes(n, sample=None):
     return out if sample is None else [out[i] for i in sample]
 CYC = dict(ENG, harness='engine/h_cycle.cpp', entry='harness_cycle', noinline=['BuildEngineImpl9findCycle'], expect_functions=['BuildEngineImpl9findCycle'],
            stubs=['BuildEngineImpl17getRuleInfoForKeyERKN7llbuild4core7KeyTypeE$=stub_getRuleInfoForKeyType',
-                  '^_ZNKSt4hashIPN7llbuild4core4TaskEEclES3_$=stub_hash_task', '^_ZNKSt4hashIPN7llbuild4core4RuleEEclES3_$=stub_hash_rule'],
-           unwind=8, unwindset='IR_CTLZ64.0:66', timeout=600, cbmc_flags=['--object-bits', '11'])
+                  '^_ZNKSt4hashIPN7llbuild4core4TaskEEclES3_$=stub_hash_task', '^_ZNKSt4hashIPN7llbuild4core4RuleEEclES3_$=stub_hash_rule', '^_ZNKSt4hashIPKN12_GLOBAL__N_115BuildEngineImpl14RuleScanRecordEEclES4_$=stub_hash_record'],
+           unwind=8, unwindset='IR_CTLZ64.0:66', timeout=600, sat_solver='cadical',   # MiniSat needs 100-200 s on many of these instances, CaDiCaL 5-15 s (measured on the thorough sweep)
+           cbmc_flags=['--object-bits', '11'])
 def stuck(ps):
     # resolveCycle is only entered when the engine is stuck: every task waits on something (each row of the shape has an edge)
     out = []
@@ -28,8 +30,17 @@ def stuck(ps):
         n, s = p['VF_N'], p['VF_SHAPE']
         if all((s >> (i * n)) & ((1 << n) - 1) for i in range(n)): out.append(dict(p, VF_RESOLVE=1))
     return out
+def scan_shapes(n, sample=None):
+    # some rules are still being scanned (VF_SCAN mask != 0); a scanning rule is parked on at most one input
+    out = []
+    for mask in range(1, 1 << n):
+        for s in range(1 << (n * n)):
+            if all(bin((s >> (i * n)) & ((1 << n) - 1)).count('1') <= 1 for i in range(n) if (mask >> i) & 1): out.append({'VF_N': n, 'VF_SHAPE': s, 'VF_SCAN': mask})
+    return out if sample is None else [out[i % len(out)] for i in sample]
 OBLIGATIONS = [
     dict(CYC, name='Y1.findCycle', params_quick=shapes(2) + shapes(3, sample=[0, 1, 2, 17, 34, 38, 68, 84, 98, 134, 140, 273, 292, 341, 427, 495, 511]), params_thorough=shapes(2) + shapes(3)),
+    dict(CYC, name='Y3.findCycle-scanning', params_quick=[{'VF_N': 2, 'VF_SHAPE': sh, 'VF_SCAN': m} for (sh, m) in ((6, 1), (6, 2), (6, 3), (2, 3), (10, 2))] +
+                      [{'VF_N': 3, 'VF_SHAPE': sh, 'VF_SCAN': m} for (sh, m) in ((10, 1), (10, 2), (10, 3), (162, 6), (102, 4), (98, 7), (98, 2), (38, 2), (38, 4), (260, 5), (2, 1), (2, 3), (140, 1), (273, 2))], params_thorough=scan_shapes(2) + scan_shapes(3)),
     dict(CYC, name='Y2.resolveCycle', noinline=['BuildEngineImpl9findCycle', 'BuildEngineImpl12resolveCycle', 'BuildEngineImpl10breakCycle'], expect_functions=['BuildEngineImpl12resolveCycle'],
          params_quick=stuck(shapes(2) + shapes(3, sample=[84, 98, 140, 273, 292, 341, 427, 495, 511])), params_thorough=stuck(shapes(2) + shapes(3))),
 ]
